@@ -34,7 +34,6 @@ HARNESSES = [
     ("polynomial_from_slice", "quick", "<= 67 bytes (two scalars + slack)"),
     ("commit_key_from_raw_var_bytes_one_point", "thorough", "<= 8+97 bytes (one raw point), symbolic length"),
     ("commit_key_from_slice_two_points", "thorough", "<= 101 bytes (two compressed points + slack)"),
-    ("opening_key_from_slice", "thorough", "<= 244 bytes; accepted keys hold no identity point"),
     ("evaluations_from_slice", "thorough", "<= 239 bytes (domain + two scalars + slack)"),
     ("proof_from_bytes", "thorough", "all 1008-byte strings"),
 ]
@@ -79,6 +78,8 @@ def run(run):
     # engine M: header/length arithmetic of Prover / Verifier::try_from_bytes for ALL lengths
     from checks import decoder_lengths
     decoder_lengths.obligations(run)
+    from checks import decoder_validity
+    decoder_validity.obligations(run)
     run.add_functions(["Prover::try_from_bytes (header and slicing, MIR)", "Verifier::try_from_bytes (header and "
                        "slicing, MIR)"])
     run.bounds.append("engine M: ALL input lengths (64-bit) and ALL values of the six 8-byte header fields of "
@@ -133,7 +134,7 @@ def run(run):
             run.inconclusive.append(f"kani/{name}: {status} after {secs:.0f}s")
     run.extra["harnesses"] = results
     run.add_functions(["CommitKey::from_raw_var_bytes", "Polynomial::from_slice", "CommitKey::from_slice",
-                       "OpeningKey::from_slice", "Evaluations::from_slice", "Proof::from_bytes"])
+                       "Evaluations::from_slice", "Proof::from_bytes"])
     run.bounds.append("; ".join(f"{n}: {b}" for n, _, b in todo))
     run.outside.append("real curve/field arithmetic (contract bodies), inflate/MessagePack of compressed circuits, byte "
                        "strings longer than the bounds, 'usable for proving without panicking', the full "
